@@ -46,7 +46,7 @@ def batches(tier, seed):
     pairs = list(itertools.product(us, us))
     nrand = 8 if tier == "quick" else 40
     b = [("additive/%d" % i, ("additive", (c, seed, nrand))) for i, c in enumerate(chunks(pairs, 16))]
-    b += [("convert/%d" % i, ("convert", c)) for i, c in enumerate(chunks(pairs, 4))]
+    b += [("convert/%d" % i, ("convert", c)) for i, c in enumerate(chunks(pairs, 16))]
     b += [("mustraise", ("mustraise", [u for u in us if kind(u) == "point"])), ("reductions", ("reductions", us))]
     return b
 
@@ -154,21 +154,54 @@ def worker(batch, rec):
                             rec.ok(("additive", form, u1, op, u2))
         rec.sample({"pair": list(payload[0]), "forms": ["operator", "ufunc", "inplace", "out", "scalar"]})
     elif kind_ == "convert":
+        IREAD = [0, 10, -40, 37, 451, -273, 100]
         for (u1, u2) in payload:
             a1, b1 = aff(u1); a2, b2 = aff(u2)
-            x = unyt.unyt_array(np.array(READINGS), u1)
-            try:
-                y = x.to(u2)
-            except Exception as e:
-                rec.violation(f"C08:convert-raises:{fam(u1)}->{fam(u2)}", f"{u1}->{u2} raised {type(e).__name__}: {e}", [u1, u2]); continue
-            exp = np.array([(a1 * v + b1 - b2) / a2 for v in READINGS])
-            t = np.array([4 * 2.3e-16 * (abs(a1 * v / a2) + abs(b1 / a2) + abs(b2 / a2)) for v in READINGS]) + 1e-300
-            if not np.all(np.abs(y.d - exp) <= t):
-                bad = int(np.argmax(np.abs(y.d - exp) / t))
-                rec.violation(f"C08:convert-value:{fam(u1)}->{fam(u2)}", f"{READINGS[bad]} {u1} -> {y.d[bad]!r} {u2}; exact affine map gives {exp[bad]!r}", [u1, u2])
-            else:
-                rec.ok(("convert", u1, u2))
-        rec.sample({"convert": list(payload[0]), "readings": READINGS})
+            for dt in ("f8", "f4", "i8", "i4", "i2"):
+                reads = READINGS if dt[0] == "f" else IREAD
+                eps = {"f8": 2.3e-16, "f4": 1.2e-7, "i8": 2.3e-16, "i4": 1.2e-7, "i2": 9.8e-4}[dt]
+                exp = np.array([(a1 * v + b1 - b2) / a2 for v in reads])
+                t = np.array([4 * eps * (abs(a1 * v / a2) + abs(b1 / a2) + abs(b2 / a2)) for v in reads]) + 1e-300
+                if dt == "i2" and (not np.all(np.isfinite(exp)) or np.max(np.abs(exp)) > 6e4 or abs(a1 / a2) > 6e4 or abs(a1 / a2) < 1e-4):
+                    continue   # float16 range
+                if dt in ("f4", "i4") and (np.max(np.abs(exp)) > 3e38 or abs(a1 / a2) > 3e38):
+                    continue
+                for route in ("to", "in_units", "to_value", "convert_to_units", "scalar.to", "scalar.convert_to_units", "view.convert_to_units"):
+                    x = unyt.unyt_array(np.array(reads, dtype=dt), u1)
+                    try:
+                        if route == "to":
+                            y = x.to(u2); got = np.asarray(y.d, dtype="f8"); U = y.units
+                        elif route == "in_units":
+                            y = x.in_units(u2); got = np.asarray(y.d, dtype="f8"); U = y.units
+                        elif route == "to_value":
+                            got = np.asarray(x.to_value(u2), dtype="f8"); U = None
+                        elif route == "convert_to_units":
+                            x.convert_to_units(u2); got = np.asarray(x.d, dtype="f8"); U = x.units
+                        elif route == "scalar.to":
+                            got = np.array([float(unyt.unyt_quantity(np.array(v, dtype=dt), u1).to(u2).d) for v in reads]); U = None
+                        elif route == "scalar.convert_to_units":
+                            got = []
+                            for v in reads:
+                                q = unyt.unyt_quantity(np.array(v, dtype=dt), u1); q.convert_to_units(u2); got.append(float(q.d))
+                            got = np.array(got); U = None
+                        else:
+                            if dt[0] == "i":
+                                continue     # in-place conversion of an integer view changes the itemsize of the base; refused or not is not C08's subject
+                            base = unyt.unyt_array(np.array(list(reads) + list(reads), dtype=dt), u1)
+                            v_ = base[:len(reads)]; v_.convert_to_units(u2); got = np.asarray(v_.d, dtype="f8"); U = v_.units
+                    except Exception as e:
+                        if dt[0] == "i" and isinstance(e, ValueError):
+                            rec.note(f"convert-refused:{route}:{dt}"); continue
+                        rec.violation(f"C08:convert-raises:{route}:{fam(u1)}->{fam(u2)}", f"{u1}->{u2} ({route}, {dt}) raised {type(e).__name__}: {e}", [u1, u2, route, dt]); continue
+                    if U is not None and (str(U.expr) != str(unyt.Unit(u2).expr)):
+                        rec.violation(f"C08:convert-unit:{route}:{fam(u1)}->{fam(u2)}", f"{u1}->{u2} ({route}) labelled {U}", [u1, u2, route, dt]); continue
+                    if got.shape != exp.shape or not np.all(np.abs(got - exp) <= t):
+                        bad = int(np.argmax(np.abs(got - exp) / t)) if got.shape == exp.shape else 0
+                        rec.violation(f"C08:convert-value:{route}:{'int' if dt[0] == 'i' else 'float'}:{fam(u1)}->{fam(u2)}",
+                                      f"{reads[bad]} {u1} ({dt}) -> {got.tolist()[bad] if got.shape == exp.shape else got.tolist()!r} {u2} via {route}; exact affine map gives {exp[bad]!r}", [u1, u2, route, dt])
+                    else:
+                        rec.ok(("convert", route, dt, u1, u2))
+        rec.sample({"convert": list(payload[0]), "readings": READINGS, "routes": 7, "dtypes": 5})
     elif kind_ == "mustraise":
         m = unyt.unyt_quantity(3.0, "m"); s_ = unyt.unyt_quantity(2.0, "s")
         for u in payload:
